@@ -108,7 +108,33 @@ def main(argv=None) -> int:
     return worst
 
 
+class _SafeOut:
+    """stdout that survives a reader going away (`| head`): the verdict is the exit code, never a side effect of printing"""
+
+    def __init__(self, f):
+        self._f, self._dead = f, False
+
+    def write(self, s):
+        if not self._dead:
+            try:
+                return self._f.write(s)
+            except BrokenPipeError:
+                self._dead = True
+        return len(s)
+
+    def flush(self):
+        if not self._dead:
+            try:
+                self._f.flush()
+            except BrokenPipeError:
+                self._dead = True
+
+    def __getattr__(self, n):
+        return getattr(self._f, n)
+
+
 if __name__ == "__main__":
+    sys.stdout = _SafeOut(sys.stdout)
     try:
         rc = main()
     except SystemExit:
@@ -118,4 +144,10 @@ if __name__ == "__main__":
         print(f"ANALYSIS-ERROR checker crashed: {type(e).__name__}: {e}")
         rc = 2
     sys.stdout.flush()
+    if sys.stdout._dead:
+        try:
+            sys.stdout._f = open(os.devnull, "w")
+        except OSError:
+            pass
+        os._exit(rc)
     sys.exit(rc)
